@@ -275,15 +275,12 @@ struct vrq {
      * that they have names: q_xx->req is the helper's REQUEST member */
     struct vreq *q_um, *q_bm, *q_uc, *q_ff;
     bool intercept;
+    bool rereq;      /* vreqr: an answer makes the pipe require again its own requests that are not registered */
 
     struct upipe upipe;
 };
 
-static int vrq_check(struct upipe *upipe, struct uref *flow_format)
-{
-    uref_free(flow_format);
-    return UBASE_ERR_NONE;
-}
+static int vrq_check(struct upipe *upipe, struct uref *flow_format);
 static int vrq_reg(struct upipe *upipe, struct urequest *urequest);
 static int vrq_unreg(struct upipe *upipe, struct urequest *urequest);
 
@@ -295,6 +292,35 @@ UPIPE_HELPER_UREF_MGR(vrq, uref_mgr, q_um->req, vrq_check, vrq_reg, vrq_unreg)
 UPIPE_HELPER_UBUF_MGR(vrq, ubuf_mgr, flow_format, q_bm->req, vrq_check, vrq_reg, vrq_unreg)
 UPIPE_HELPER_UCLOCK(vrq, uclock, q_uc->req, vrq_check, vrq_reg, vrq_unreg)
 UPIPE_HELPER_FLOW_FORMAT(vrq, q_ff->req, vrq_check, vrq_reg, vrq_unreg)
+
+/* the check call-back of the helpers.  vreqr does what the check functions of many pipes do (a flow format
+ * answer makes them require their buffer manager again, ...): it requires again those of its own requests
+ * that sit in its list without being registered on its output - which is only the case while set_output
+ * re-issues the list one by one */
+static int vrq_check(struct upipe *upipe, struct uref *flow_format)
+{
+    uref_free(flow_format);
+    struct vrq *s = vrq_from_upipe(upipe);
+    while (s->rereq && s->output != NULL) {
+        struct urequest *found = NULL;
+        struct uchain *uchain;
+        ulist_foreach (&s->request_list, uchain) {
+            struct urequest *r = urequest_from_uchain(uchain);
+            if (!r->registered && (r == &s->q_um->req || r == &s->q_bm->req ||
+                                   r == &s->q_uc->req || r == &s->q_ff->req)) {
+                found = r;
+                break;
+            }
+        }
+        if (found == NULL)
+            break;
+        if (found == &s->q_um->req) vrq_require_uref_mgr(upipe);
+        else if (found == &s->q_bm->req) vrq_require_ubuf_mgr(upipe, make_fd("bA"));
+        else if (found == &s->q_uc->req) vrq_require_uclock(upipe);
+        else vrq_require_flow_format(upipe, make_fd("bA"));
+    }
+    return UBASE_ERR_NONE;
+}
 
 /* the helper's call-back of each own request, and a trampoline that records
  * the invocation before running it */
@@ -373,6 +399,7 @@ static struct upipe *vrq_alloc_common(struct upipe_mgr *mgr, struct uprobe *upro
     s->q_ff = own_slot("od", serial % 100);
     assert(s->q_um && s->q_bm && s->q_uc && s->q_ff);
     s->intercept = intercept;
+    s->rereq = false;
     vrq_init_urefcount(upipe);
     vrq_init_output(upipe);
     vrq_init_uref_mgr(upipe);
@@ -389,6 +416,12 @@ static struct upipe *vrq_alloc(struct upipe_mgr *mgr, struct uprobe *uprobe, uin
 static struct upipe *vrqi_alloc(struct upipe_mgr *mgr, struct uprobe *uprobe, uint32_t sig, va_list args)
 {
     return vrq_alloc_common(mgr, uprobe, sig, args, true);
+}
+static struct upipe *vrqr_alloc(struct upipe_mgr *mgr, struct uprobe *uprobe, uint32_t sig, va_list args)
+{
+    struct upipe *upipe = vrq_alloc_common(mgr, uprobe, sig, args, false);
+    if (upipe != NULL) vrq_from_upipe(upipe)->rereq = true;
+    return upipe;
 }
 static int vrq_control(struct upipe *upipe, int command, va_list args)
 {
@@ -416,10 +449,13 @@ static void vrq_free(struct upipe *upipe)
 }
 static struct upipe_mgr vrq_mgr = { .signature = 0x76727120, .upipe_alloc = vrq_alloc,
                                     .upipe_input = vrq_input, .upipe_control = vrq_control };
+static struct upipe_mgr vrqr_mgr = { .signature = 0x76727120, .upipe_alloc = vrqr_alloc,
+                                     .upipe_input = vrq_input, .upipe_control = vrq_control };
 static struct upipe_mgr vrqi_mgr = { .signature = 0x76727120, .upipe_alloc = vrqi_alloc,
                                      .upipe_input = vrq_input, .upipe_control = vrq_control };
 static struct upipe_mgr *m_vreq(void) { return &vrq_mgr; }
 static struct upipe_mgr *m_vreqi(void) { return &vrqi_mgr; }
+static struct upipe_mgr *m_vreqr(void) { return &vrqr_mgr; }
 
 /* ------------------------------------------------------------ types */
 static const struct pipe_type c12_types[] = {
@@ -430,6 +466,7 @@ static const struct pipe_type c12_types[] = {
     { "idem_uc", m_idem_uc, NULL, NULL },
     { "vreq", m_vreq, NULL, NULL },
     { "vreqi", m_vreqi, NULL, NULL },
+    { "vreqr", m_vreqr, NULL, NULL },
     { "rsink", m_rsink, NULL, NULL },
     { "ts_align", upipe_ts_align_mgr_alloc, NULL, NULL },
     { NULL, NULL, NULL, NULL }
@@ -463,7 +500,7 @@ static int type_of(const char *t)
 }
 static bool is_vrq(struct obj *o)
 {
-    return o && o->upipe && o->type && (!strcmp(o->type->name, "vreq") || !strcmp(o->type->name, "vreqi"));
+    return o && o->upipe && o->type && (!strcmp(o->type->name, "vreq") || !strcmp(o->type->name, "vreqi") || !strcmp(o->type->name, "vreqr"));
 }
 
 bool pd_ext_e(int nt, char **tok)
